@@ -234,6 +234,9 @@ pub enum SE {
     Conj(Box<SE>),
     MulSqrt2(Box<SE>, i32),
     MulPhase(Box<SE>, (i64, i64)),
+    /// `Iterator::sum` / `Iterator::product` over the terms, in order
+    SumOf(Vec<SE>),
+    ProductOf(Vec<SE>),
 }
 
 impl DE {
@@ -280,7 +283,230 @@ fn quarter(n: i64, d: i64) -> Option<i64> {
     }
 }
 
+/// chooses among the equivalent public spellings of an operation (owned / borrowed operands,
+/// compound assignment, Sum / Product, convenience methods, the From impls); seed 0 = always the
+/// first spelling
+pub struct Sel(pub u64, pub u64);
+impl Sel {
+    fn next(&mut self, n: u64) -> u64 {
+        if self.0 == 0 {
+            0
+        } else {
+            self.1 += 1;
+            crate::engine::mix(self.0, self.1) % n
+        }
+    }
+}
+
+impl DE {
+    fn qv(&self, sel: &mut Sel) -> Dyadic {
+        match self {
+            DE::New(v, e) => {
+                if *e == 0 && sel.next(2) == 1 {
+                    Dyadic::from(*v)
+                } else {
+                    Dyadic::new(*v, *e)
+                }
+            }
+            DE::F(x) => Dyadic::from(*x),
+            DE::Add(a, b) => {
+                let (x, y) = (a.qv(sel), b.qv(sel));
+                if sel.next(2) == 1 {
+                    let mut z = x;
+                    z += y;
+                    z
+                } else {
+                    x + y
+                }
+            }
+            DE::Sub(a, b) => {
+                let (x, y) = (a.qv(sel), b.qv(sel));
+                if sel.next(2) == 1 {
+                    let mut z = x;
+                    z -= y;
+                    z
+                } else {
+                    x - y
+                }
+            }
+            DE::Mul(a, b) => {
+                let (x, y) = (a.qv(sel), b.qv(sel));
+                if sel.next(2) == 1 {
+                    let mut z = x;
+                    z *= y;
+                    z
+                } else {
+                    x * y
+                }
+            }
+            DE::Neg(a) => -a.qv(sel),
+        }
+    }
+}
+
 impl SE {
+    pub fn qv(&self, sel: &mut Sel) -> Scalar4 {
+        use num::{One, Zero};
+        match self {
+            SE::New(c, e) => {
+                if *e == 0 && sel.next(2) == 1 {
+                    Scalar4::from(*c)
+                } else {
+                    Scalar4::new(*c, *e)
+                }
+            }
+            SE::Int(i) => match sel.next(2) {
+                1 => Scalar4::new([*i, 0, 0, 0], 0),
+                _ => Scalar4::from(*i),
+            },
+            SE::Phase(n, d) => {
+                let p = to_qphase((*n, *d));
+                match sel.next(3) {
+                    1 => Scalar4::from(p),
+                    2 if p.is_one() => Scalar4::minus_one(),
+                    2 => {
+                        let mut s = Scalar4::one();
+                        s.mul_phase(p);
+                        s
+                    }
+                    _ => Scalar4::from_phase(p),
+                }
+            }
+            SE::OnePlus(n, d) => {
+                let p = to_qphase((*n, *d));
+                match sel.next(3) {
+                    1 => {
+                        let mut s = Scalar4::one();
+                        s.mul_one_plus_phase(p);
+                        s
+                    }
+                    2 => Scalar4::one() + Scalar4::from_phase(p),
+                    _ => Scalar4::one_plus_phase(p),
+                }
+            }
+            SE::Sqrt2Pow(p) => match sel.next(2) {
+                1 => {
+                    let mut s = Scalar4::one();
+                    s.mul_sqrt2_pow(*p);
+                    s
+                }
+                _ => Scalar4::sqrt2_pow(*p),
+            },
+            SE::Real(x) => match sel.next(3) {
+                1 => Scalar4::from(*x),
+                2 => Scalar4::from([*x, 0.0, 0.0, 0.0]),
+                _ => Scalar4::real(*x),
+            },
+            SE::Complex(a, b) => match sel.next(3) {
+                1 => Scalar4::from(num::Complex::new(*a, *b)),
+                2 => Scalar4::from([*a, 0.0, *b, 0.0]),
+                _ => Scalar4::complex(*a, *b),
+            },
+            SE::Add(a, b) => {
+                let (x, y) = (a.qv(sel), b.qv(sel));
+                match sel.next(7) {
+                    1 => &x + &y,
+                    2 => &x + y,
+                    3 => x + &y,
+                    4 => {
+                        let mut z = x;
+                        z += y;
+                        z
+                    }
+                    5 => {
+                        let mut z = x;
+                        z += &y;
+                        z
+                    }
+                    6 => [x, y].into_iter().sum(),
+                    _ => x + y,
+                }
+            }
+            SE::Sub(a, b) => {
+                let (x, y) = (a.qv(sel), b.qv(sel));
+                match sel.next(6) {
+                    1 => &x - &y,
+                    2 => &x - y,
+                    3 => x - &y,
+                    4 => {
+                        let mut z = x;
+                        z -= y;
+                        z
+                    }
+                    5 => {
+                        let mut z = x;
+                        z -= &y;
+                        z
+                    }
+                    _ => x - y,
+                }
+            }
+            SE::Mul(a, b) => {
+                let (x, y) = (a.qv(sel), b.qv(sel));
+                match sel.next(7) {
+                    1 => &x * &y,
+                    2 => &x * y,
+                    3 => x * &y,
+                    4 => {
+                        let mut z = x;
+                        z *= y;
+                        z
+                    }
+                    5 => {
+                        let mut z = x;
+                        z *= &y;
+                        z
+                    }
+                    6 => [x, y].into_iter().product(),
+                    _ => x * y,
+                }
+            }
+            SE::Conj(a) => a.qv(sel).conj(),
+            SE::SumOf(ts) => {
+                let vs: Vec<Scalar4> = ts.iter().map(|t| t.qv(sel)).collect();
+                match sel.next(3) {
+                    // a chain of +, from the first term or from zero
+                    1 => vs.iter().skip(1).fold(vs.first().copied().unwrap_or(Scalar4::zero()), |a, b| a + *b),
+                    2 => vs.iter().fold(Scalar4::zero(), |a, b| &a + b),
+                    _ => vs.into_iter().sum(),
+                }
+            }
+            SE::ProductOf(ts) => {
+                let vs: Vec<Scalar4> = ts.iter().map(|t| t.qv(sel)).collect();
+                match sel.next(3) {
+                    1 => vs.iter().skip(1).fold(vs.first().copied().unwrap_or(Scalar4::one()), |a, b| a * *b),
+                    2 => vs.iter().fold(Scalar4::one(), |a, b| &a * b),
+                    _ => vs.into_iter().product(),
+                }
+            }
+            SE::MulSqrt2(a, p) => {
+                let mut s = a.qv(sel);
+                match sel.next(3) {
+                    1 => s * Scalar4::sqrt2_pow(*p),
+                    2 => &s * &Scalar4::sqrt2_pow(*p),
+                    _ => {
+                        s.mul_sqrt2_pow(*p);
+                        s
+                    }
+                }
+            }
+            SE::MulPhase(a, p) => {
+                let mut s = a.qv(sel);
+                let ph = to_qphase(*p);
+                match sel.next(3) {
+                    1 => s * Scalar4::from(ph),
+                    2 => {
+                        s *= Scalar4::from_phase(ph);
+                        s
+                    }
+                    _ => {
+                        s.mul_phase(ph);
+                        s
+                    }
+                }
+            }
+        }
+    }
     fn q(&self) -> Scalar4 {
         match self {
             SE::New(c, e) => Scalar4::new(*c, *e),
@@ -294,6 +520,8 @@ impl SE {
             SE::Sub(a, b) => a.q() - b.q(),
             SE::Mul(a, b) => a.q() * b.q(),
             SE::Conj(a) => a.q().conj(),
+            SE::SumOf(ts) => ts.iter().map(|t| t.q()).sum(),
+            SE::ProductOf(ts) => ts.iter().map(|t| t.q()).product(),
             SE::MulSqrt2(a, p) => {
                 let mut s = a.q();
                 s.mul_sqrt2_pow(*p);
@@ -335,6 +563,20 @@ impl SE {
             SE::Sub(a, b) => bs_sub(&a.m()?, &b.m()?),
             SE::Mul(a, b) => bs_mul(&a.m()?, &b.m()?),
             SE::Conj(a) => bs_conj(&a.m()?),
+            SE::SumOf(ts) => {
+                let mut acc = bs_zero();
+                for t in ts {
+                    acc = bs_add(&acc, &t.m()?);
+                }
+                acc
+            }
+            SE::ProductOf(ts) => {
+                let mut acc = bs_one();
+                for t in ts {
+                    acc = bs_mul(&acc, &t.m()?);
+                }
+                acc
+            }
             SE::MulSqrt2(a, p) => bs_mul(&a.m()?, &bs_sqrt2_pow(*p as i64)),
             SE::MulPhase(a, p) => match quarter(p.0, p.1) {
                 Some(k) => bs_mul(&a.m()?, &bs_omega(k)),
@@ -346,6 +588,7 @@ impl SE {
         match self {
             SE::Add(a, b) | SE::Sub(a, b) | SE::Mul(a, b) => 1 + a.ops() + b.ops(),
             SE::Conj(a) | SE::MulSqrt2(a, _) | SE::MulPhase(a, _) => 1 + a.ops(),
+            SE::SumOf(ts) | SE::ProductOf(ts) => ts.len() + ts.iter().map(|t| t.ops()).sum::<usize>(),
             _ => 0,
         }
     }
@@ -449,9 +692,18 @@ fn se_strategy(depth: u32, with_floats: bool) -> BoxedStrategy<SE> {
     } else {
         exact_leaf.boxed()
     };
+    // (big + small) - big: the small part is rounded away and an approximate zero (or an
+    // approximate remainder) is left whose exact value is `small`
+    let rounded_away = (prop::array::uniform4(-3i64..=3), 64i32..200, prop::array::uniform4(-5i64..=5), -3i32..=3).prop_map(|(b, e, c, e2)| {
+        let big = SE::New(if b == [0; 4] { [1, 0, 0, 0] } else { b }, e);
+        SE::Sub(Box::new(SE::Add(Box::new(big.clone()), Box::new(SE::New(c, e2)))), Box::new(big))
+    });
+    let leaf = prop_oneof![12 => leaf, 1 => rounded_away].boxed();
     let wf = with_floats;
-    leaf.prop_recursive(depth, 20, 2, move |inner| {
+    leaf.prop_recursive(depth, 20, 4, move |inner| {
         prop_oneof![
+            1 => prop::collection::vec(inner.clone(), 1..=4).prop_map(SE::SumOf),
+            1 => prop::collection::vec(inner.clone(), 1..=3).prop_map(SE::ProductOf),
             3 => (inner.clone(), inner.clone()).prop_map(|(a, b)| SE::Add(Box::new(a), Box::new(b))),
             2 => (inner.clone(), inner.clone()).prop_map(|(a, b)| SE::Sub(Box::new(a), Box::new(b))),
             4 => (inner.clone(), inner.clone()).prop_map(|(a, b)| SE::Mul(Box::new(a), Box::new(b))),
@@ -582,6 +834,41 @@ fn check_scalar(c: &SCase, obs: &mut Obs) -> Result<(), String> {
     let mb = b.m();
     let ops = a.ops();
     let mut classes: Vec<&'static str> = vec![];
+    // the same expression through other public spellings of each operation
+    if ops >= 1 {
+        let seed = crate::engine::mix(c.variant as u64 + 1, ops as u64) | 1;
+        let alt = guarded("scalar expression (alternative spellings)", || a.qv(&mut Sel(seed, 0)))?;
+        for d in alt.verif_coeffs().iter() {
+            check_repr(d)?;
+        }
+        // (the approx flag may legitimately differ: From<f64> marks its zero coefficients
+        // approximate, Scalar4::real does not; only "not flagged => exact" is claimed)
+        if !alt.approx() {
+            let m = ma.as_ref().expect("model always has a value");
+            let cs = alt.verif_coeffs();
+            for i in 0..4 {
+                let (got, _) = raw_bd(&cs[i]);
+                if got != m[i] {
+                    return Err(format!(
+                        "alternative spellings: coefficient {i} is not flagged approximate but differs from the exact value: stored {:?}, exact {:?}; plain spelling gives {qa:?}",
+                        cs[i], m[i]
+                    ));
+                }
+            }
+        }
+        if alt.approx() || qa.approx() {
+            // complex_value() panics beyond f64's exponent range (its documented behaviour)
+            let cv = |s: &Scalar4| num::Complex::<f64>::try_from(s).unwrap_or(num::Complex::new(f64::NAN, f64::NAN));
+            let (x, y) = (cv(&alt), cv(&qa));
+            let scale = x.norm().max(y.norm());
+            if x.re.is_finite() && x.im.is_finite() && y.re.is_finite() && y.im.is_finite() && scale > 1e-290 && scale < 1e290 {
+                if (x - y).norm() > 1e-12 * scale {
+                    return Err(format!("alternative spellings of the same expression give {x}, the plain spelling gives {y}"));
+                }
+            }
+        }
+        classes.push("alternative-spellings");
+    }
     // (a) exactness
     let mut exact_a = false;
     for (q, m, name) in [(&qa, &ma, "a"), (&qb, &mb, "b")] {
@@ -689,6 +976,17 @@ fn check_dyadic(c: &DCase, obs: &mut Obs) -> Result<(), String> {
     let qb = guarded("dyadic expression", || c.b.q())?;
     check_repr(&qa)?;
     check_repr(&qb)?;
+    {
+        // compound-assignment spellings perform the same operation
+        let alt = guarded("dyadic expression (op-assign spellings)", || c.a.qv(&mut Sel(0x5eed | 1, 0)))?;
+        if alt.verif_raw_parts() != qa.verif_raw_parts() {
+            return Err(format!(
+                "a: the expression evaluated with +=, -=, *= gives {alt:?} (raw {:?}), with +, -, * it gives {qa:?} (raw {:?})",
+                alt.verif_raw_parts(),
+                qa.verif_raw_parts()
+            ));
+        }
+    }
     let (va, fa) = raw_bd(&qa);
     let (vb, fb) = raw_bd(&qb);
     for (q, v, f, e, name) in [(&qa, &va, fa, &c.a, "a"), (&qb, &vb, fb, &c.b, "b")] {
